@@ -29,7 +29,7 @@ LEVEL = "model_checking"
 A_LOAD, A_CAS, A_SPUR, A_ALLOC, A_GROW, A_SHRINK, A_DROP = 1, 2, 3, 4, 5, 6, 7
 ACTIONS = ["TryLoadGiveUp", "TryLoadCont", "TryCasOk", "TryCasFailRetry", "TryCasFailGiveUp",
            "TryCasSpurious", "Alloc", "ResizeGrow", "ResizeShrink", "Drop"]
-TOYS = ["toctou", "nostore", "storefirst", "droporig", "satsub"]
+TOYS = ["toctou", "hoist", "nostore", "storefirst", "droporig", "satsub"]
 # Debug knob for demonstrating the violation path end to end: VERIF_C33_IMPL=toy:toctou runs the
 # whole check against the harness' seeded-bug mirror of the pool instead of the real one.
 # Never set by the registered commands; recorded in evidence when used.
@@ -243,6 +243,7 @@ def generate(ctx, tier, families, sim_walks, sim_procs):
     n_m = len(jobs)
     jobs.append(("sanity: load-check-fetch_add variant", "MemoryPool", "MemoryPool_toctou.cfg", dict(workers=1, timeout=600)))
     if not q:
+        jobs.append(("sanity: limit checked only before the CAS loop", "MemoryPool", "MemoryPool_hoist.cfg", dict(workers=1, timeout=600)))
         jobs.append(("sanity: resize without storing the size (Exact)", "MemoryPool", "MemoryPool_nostore.cfg", dict(workers=1, timeout=600)))
         jobs.append(("sanity: resize without storing the size (NoUnderflow)", "MemoryPool", "MemoryPool_nostore_uflow.cfg", dict(workers=1, timeout=600)))
     n_s = len(jobs)
@@ -263,6 +264,7 @@ def generate(ctx, tier, families, sim_walks, sim_procs):
         ctx.cov.setdefault("spec_action_transitions", {})[c] = cov
     # sanity variants must be caught by the model
     allowed = {"MemoryPool_toctou.cfg": ("NoBadGrant", "CondGrant", "TryOnlyBounded"),
+               "MemoryPool_hoist.cfg": ("NoBadGrant", "CondGrant", "TryOnlyBounded"),
                "MemoryPool_nostore.cfg": ("Exact",), "MemoryPool_nostore_uflow.cfg": ("NoUnderflow",)}
     for (label, m, c, _), r in zip(jobs[n_m:n_s], res[n_m:n_s]):
         expect_model_violation(r, c, allowed[c])
@@ -500,10 +502,11 @@ def selftest(ctx):
               f"{len(hits)}/{len(cases)} behaviours; e.g. {hits[0][1]['contract'] if hits else ''}")
     # 6. the model sees the bug classes (TLC on the Buggy variants)
     res = tlc_parallel([("", "MemoryPool", c, dict(workers=1, timeout=600)) for c in
-                        ("MemoryPool_toctou.cfg", "MemoryPool_nostore.cfg", "MemoryPool_nostore_uflow.cfg")])
+                        ("MemoryPool_toctou.cfg", "MemoryPool_nostore.cfg", "MemoryPool_nostore_uflow.cfg", "MemoryPool_hoist.cfg")])
     check("model: load-check-fetch_add violates NoBadGrant/CondGrant", res[0].violated in ("NoBadGrant", "CondGrant", "TryOnlyBounded"), str(res[0].violated))
     check("model: resize without store violates Exact", res[1].violated == "Exact", str(res[1].violated))
     check("model: resize without store violates NoUnderflow", res[2].violated == "NoUnderflow", str(res[2].violated))
+    check("model: limit check hoisted out of the CAS loop violates NoBadGrant/CondGrant", res[3].violated in ("NoBadGrant", "CondGrant", "TryOnlyBounded"), str(res[3].violated))
     # 7. stress trace: corrupted barrier / over-limit observation rejected; seeded TOCTOU under real concurrency (informational)
     recs = stress(ctx, "st", ctx.seed, 4, 6, 5, "tryonly", 8)
     check("stress trace accepted", not tlc_rejects(ctx, recs, "st-stress"))
